@@ -65,7 +65,7 @@ def _work(job):
             tr, conc = davgen.run_witness_session(job["witness"], frontend=job["cfg"][0], prefix=job["cfg"][1],
                                                   backend=job["cfg"][2], principal=(list(job["cfg"]) + ["/user/"])[3],
                                                   audit_git=(job.get("dev") != "fault-enumeration" and not job.get("gitconf")),
-                                                  gitconf=job.get("gitconf", ""))
+                                                  gitconf=job.get("gitconf", ""), index_threshold=job.get("index_threshold"))
         else:
             raise ValueError(kind)
         tr["job"] = {k: v for k, v in job.items() if k not in ("behaviour", "witness")}
@@ -284,6 +284,14 @@ def run(prop, tier, seed, replay=None):
     for name, (cfg, steps) in sorted(DIRECTED.items()):
         tid += 1
         jobs.append({"kind": "witness", "witness": steps, "cfg": cfg, "tid": tid, "dev": "directed:" + name})
+    # UID look-ups answered from the query index (threshold 0), then a write with the UID a
+    # non-event holds
+    tid += 1
+    jobs.append({"kind": "witness", "cfg": HTTP_CONFIGS[0], "tid": tid, "dev": "directed:uid-lookups", "index_threshold": 0,
+                 "witness": [["mk", "cal1", "calendar"], ["put", "cal1", "t.ics", "@todo-uid-u"], ["put", "cal1", "a.ics", "@model:1"]] +
+                            [["uidquery", "cal1", "special-uid-u"]] * 4 + [["uidquery", "cal1", "model-uid-1@example.com"]] * 2 +
+                            [["put", "cal1", "e.ics", "@uid-u-1"], ["put", "cal1", "f.ics", "@model:2"],
+                             ["delete", "cal1", "t.ics"], ["uidquery", "cal1", "special-uid-u"], ["put", "cal1", "e.ics", "@uid-u-1"]]})
     # one ordinary session in a deployment with line-ending conversion configured in git
     tid += 1
     jobs.append({"kind": "witness", "cfg": HTTP_CONFIGS[0], "tid": tid, "dev": "directed:autocrlf",
@@ -550,5 +558,5 @@ def _work_replay(job, r):
         return davgen.run_witness_session(steps, frontend=job["cfg"][0], prefix=job["cfg"][1],
                                           backend=job["cfg"][2], principal=(list(job["cfg"]) + ["/user/"])[3],
                                           audit_git=(job.get("dev") != "fault-enumeration" and not job.get("gitconf")),
-                                          gitconf=job.get("gitconf", ""))
+                                          gitconf=job.get("gitconf", ""), index_threshold=job.get("index_threshold"))
     return None
